@@ -25,8 +25,9 @@ def main():
                 fix_commits.append(e["commit"])
     for p in props:
         pid = p["id"]
-        mods = [f for f in os.listdir(os.path.join(VERIF, "checks")) if f.lower().startswith(pid.lower() + "_")]
-        if not mods:
+        claimed = open(os.path.join(VERIF, "tools", "claimed.txt")).read().split()
+        mods = [f for f in os.listdir(os.path.join(VERIF, "checks")) if f.lower().startswith(pid.lower() + "_") and f.endswith(".py")]
+        if not mods or pid not in claimed:
             na.append({"property_id": pid, "reason": NOT_APPLICABLE_REASONS.get(pid, "check not implemented yet in this revision (design in DESIGN.md section 1); not claimed")})
             continue
         mod = importlib.import_module("checks." + mods[0][:-3])
